@@ -9,7 +9,13 @@ W="${W:-/tmp/vp-mut}"
 git -C "$W" checkout -q --detach "$(git -C /repo rev-parse HEAD)" 2>/dev/null
 git -C "$W" checkout -q -- . ; git -C "$W" clean -qfd -e .verif-target
 patch="$1"; shift; case "$patch" in none|/*) ;; *) patch="$PWD/$patch";; esac
-if [ "$patch" != "none" ]; then git -C "$W" apply "$patch" || { echo "APPLY FAILED $patch"; exit 3; }; fi
+if [ "$patch" != "none" ]; then
+  if ! git -C "$W" apply "$patch" 2>/dev/null; then
+    git -C "$W" checkout -q --detach "${FALLBACK_BASE:-$(git -C /repo rev-parse HEAD~1)}"; git -C "$W" checkout -q -- .
+    git -C "$W" apply "$patch" || { echo "APPLY FAILED $patch"; exit 3; }
+    echo "(applied to $(git -C "$W" rev-parse --short HEAD), not to /repo HEAD)"
+  fi
+fi
 mkdir -p /tmp/vp-mut-out
 for p in "$@"; do
   out=$(VERIF_REPO="$W" VERIF_DIR=/tmp/vp-mut-out "$V/check" "$p" "${TIER:-quick}" 2>&1); code=$?
